@@ -102,6 +102,9 @@ func (r *TaskRunner) Run(t *task.Task) error {
 	r.cancelMutex.RUnlock()
 	defer r.running.Done()
 
+	// what the task reports is the outcome of this run, not of an earlier run of the same task
+	t.Errored, t.Skipped = false, false
+
 	execContext, err := r.contextForTask(t)
 	if err != nil {
 		return err
